@@ -110,10 +110,27 @@ def text_leaves(t):
             yield from text_leaves(v)
 
 
-def m_dumps(it, obj, *, default=None, indent=None, ensure_ascii=True, **kw):
+def _check_nan(tree, allow_nan):
+    if allow_nan:
+        return
+    if tree[0] == "leaf":
+        v = tree[1]
+        if isinstance(v, float) and (v != v or v in (float("inf"), float("-inf"))):
+            raise PyRaise(ValueError("Out of range float values are not JSON compliant"))
+    elif tree[0] == "arr":
+        for x in tree[1]:
+            _check_nan(x, allow_nan)
+    else:
+        for _, x in tree[1]:
+            _check_nan(x, allow_nan)
+
+
+def m_dumps(it, obj, *, default=None, indent=None, ensure_ascii=True, allow_nan=True, **kw):
     note("json", "dumps/loads are modelled as the JSON tree: dict (string keys, order kept) / list / str / int / float / bool / None; `default` is called once per other object; "
-         "loads(dumps(x)) rebuilds the tree (arrays as lists) and calls object_hook bottom-up on every object")
-    return JSText(tree_of(it, obj, default), indent, ascii=bool(it.unbase(ensure_ascii)) if it.concrete(it.unbase(ensure_ascii)) else True)
+         "loads(dumps(x)) rebuilds the tree (arrays as lists) and calls object_hook bottom-up on every object; allow_nan=False refuses nan / inf")
+    tree = tree_of(it, obj, default)
+    _check_nan(tree, bool(it.unbase(allow_nan)))
+    return JSText(tree, indent, ascii=bool(it.unbase(ensure_ascii)) if it.concrete(it.unbase(ensure_ascii)) else True)
 
 
 class JSFragment:
